@@ -7,6 +7,8 @@ import ChibiVerif.Lemmas.LinkageScan
 
 namespace ChibiVerif.Linkage
 
+variable [Rules]
+
 def notTent (o : Obj) : Bool := !o.isTentative
 
 /-- a type update of the first tentative definition of a name leaves the non-tentative objects alone -/
@@ -58,7 +60,7 @@ theorem filter_notTent_scanLoop (all : List Obj) : ∀ (n : Nat) (l : List Obj),
             simp only [List.filter, hc]
             exact ih as hn'
 
-theorem filter_notTent_scanGlobals (gs : List Obj) : (scanGlobals gs).filter notTent = gs.filter notTent :=
+theorem filter_notTent_scanCore (gs : List Obj) : (scanCore gs).filter notTent = gs.filter notTent :=
   filter_notTent_scanLoop gs gs.length gs (Nat.le_refl _)
 
 /-- `find?` only looks at the sublist where the predicate can hold -/
@@ -80,7 +82,7 @@ theorem fnNotTent_of_tyRel {l l' : List Obj} (h : TyRel l l') (hf : FnNotTent l)
   obtain ⟨a, ha, t, rfl⟩ := h.mem hb
   exact hf a ha hfun
 
-theorem fnNotTent_scanGlobals {gs : List Obj} (hf : FnNotTent gs) : FnNotTent (scanGlobals gs) := by
+theorem fnNotTent_scanCore {gs : List Obj} (hf : FnNotTent gs) : FnNotTent (scanCore gs) := by
   intro b hb hfun
   -- a member of the result is, up to its type, a member of `scanPure gs gs`, which is a sublist of `gs`
   have hsub : ∀ (all l : List Obj) (x : Obj), x ∈ scanPure all l → x ∈ l := by
@@ -101,7 +103,7 @@ theorem fnNotTent_scanGlobals {gs : List Obj} (hf : FnNotTent gs) : FnNotTent (s
           · rcases List.mem_cons.mp hx with rfl | hx
             · exact List.mem_cons_self
             · exact List.mem_cons_of_mem _ (ih x hx)
-  obtain ⟨a, ha, t, rfl⟩ := (scanGlobals_tyRel gs).mem hb
+  obtain ⟨a, ha, t, rfl⟩ := (scanCore_tyRel gs).mem hb
   exact hf a (hsub gs gs a ha) hfun
 
 theorem fnPred_notTent {gs : List Obj} (hf : FnNotTent gs) (f : Name) :
@@ -112,11 +114,11 @@ theorem fnPred_notTent {gs : List Obj} (hf : FnNotTent gs) (f : Name) :
   simp [notTent, hf o ho hp.1]
 
 /-- `scan_globals` does not change what `find_func` returns -/
-theorem findFunc_scanGlobals {gs : List Obj} (hf : FnNotTent gs) (f : Name) :
-    findFunc (scanGlobals gs) f = findFunc gs f := by
+theorem findFunc_scanCore {gs : List Obj} (hf : FnNotTent gs) (f : Name) :
+    findFunc (scanCore gs) f = findFunc gs f := by
   rw [findFunc_eq, findFunc_eq,
-    find?_filter_of_imp (q := notTent) _ (fnPred_notTent (fnNotTent_scanGlobals hf) f),
-    find?_filter_of_imp (q := notTent) gs (fnPred_notTent hf f), filter_notTent_scanGlobals]
+    find?_filter_of_imp (q := notTent) _ (fnPred_notTent (fnNotTent_scanCore hf) f),
+    find?_filter_of_imp (q := notTent) gs (fnPred_notTent hf f), filter_notTent_scanCore]
 
 theorem filterMap_emitTextFn_filter : ∀ (l : List Obj), FnNotTent l →
     l.filterMap emitTextFn = (l.filter notTent).filterMap emitTextFn
@@ -134,24 +136,24 @@ theorem filterMap_emitTextFn_filter : ∀ (l : List Obj), FnNotTent l →
       rw [ih]
 
 /-- ... nor which functions are printed -/
-theorem emitText_scanGlobals {gs : List Obj} (hf : FnNotTent gs) : emitText (scanGlobals gs) = emitText gs := by
+theorem emitText_scanCore {gs : List Obj} (hf : FnNotTent gs) : emitText (scanCore gs) = emitText gs := by
   unfold emitText
-  rw [filterMap_emitTextFn_filter _ (fnNotTent_scanGlobals hf), filterMap_emitTextFn_filter _ hf,
-    filter_notTent_scanGlobals]
+  rw [filterMap_emitTextFn_filter _ (fnNotTent_scanCore hf), filterMap_emitTextFn_filter _ hf,
+    filter_notTent_scanCore]
 
 /-- a function object is in the list after `scan_globals` iff it was before -/
-theorem mem_scanGlobals_fn {gs : List Obj} (hf : FnNotTent gs) {o : Obj} (hfun : o.isFunction = true) :
-    o ∈ scanGlobals gs ↔ o ∈ gs := by
+theorem mem_scanCore_fn {gs : List Obj} (hf : FnNotTent gs) {o : Obj} (hfun : o.isFunction = true) :
+    o ∈ scanCore gs ↔ o ∈ gs := by
   constructor
   · intro ho
-    have hnt : notTent o = true := by simp [notTent, fnNotTent_scanGlobals hf o ho hfun]
-    have : o ∈ (scanGlobals gs).filter notTent := List.mem_filter.mpr ⟨ho, hnt⟩
-    rw [filter_notTent_scanGlobals] at this
+    have hnt : notTent o = true := by simp [notTent, fnNotTent_scanCore hf o ho hfun]
+    have : o ∈ (scanCore gs).filter notTent := List.mem_filter.mpr ⟨ho, hnt⟩
+    rw [filter_notTent_scanCore] at this
     exact (List.mem_filter.mp this).1
   · intro ho
     have hnt : notTent o = true := by simp [notTent, hf o ho hfun]
     have : o ∈ gs.filter notTent := List.mem_filter.mpr ⟨ho, hnt⟩
-    rw [← filter_notTent_scanGlobals] at this
+    rw [← filter_notTent_scanCore] at this
     exact (List.mem_filter.mp this).1
 
 /-! ### what `mark_live` keeps -/
@@ -184,13 +186,13 @@ theorem refs_eq_refsOf {gs : List Obj} (hn : (fnNamesOf gs).Nodup) {o : Obj} {f 
   rw [findFunc_of_mem hn ho hfun hs]
 
 theorem mem_rootNames {gs : List Obj} {o : Obj} {f : Name} (ho : o ∈ gs) (hfun : o.isFunction = true)
-    (hs : o.sym = .named f) (hr : o.isRoot = true) : f ∈ rootNames gs := by
+    (hs : o.sym = .named f) (hr : effRoot o = true) : f ∈ rootNames gs := by
   unfold rootNames
   rw [List.mem_filterMap]
   exact ⟨o, ho, by simp [hs, hfun, hr]⟩
 
 theorem of_mem_rootNames {gs : List Obj} {f : Name} (h : f ∈ rootNames gs) :
-    ∃ o, o ∈ gs ∧ o.isFunction = true ∧ o.sym = .named f ∧ o.isRoot = true := by
+    ∃ o, o ∈ gs ∧ o.isFunction = true ∧ o.sym = .named f ∧ effRoot o = true := by
   unfold rootNames at h
   rw [List.mem_filterMap] at h
   obtain ⟨o, ho, hh⟩ := h
